@@ -111,10 +111,13 @@ pub fn worker(prop: &str, seed: u64, w: u64, nw: u64, count: u64, out_path: &str
             use std::os::unix::fs::FileExt;
             let _ = f.write_at(format!("{:<20}", i).as_bytes(), 0);
         }
-        unsafe {
-            libc::alarm(25);
-        }
         let sc = profiles::generate(prop, seed, i);
+        // per-index wall-clock watchdog (an endless CPU-only loop makes no simulated call); the one
+        // world that moves more than 4 GiB of bytes gets more time
+        let limit = if sc.tags.iter().any(|t| t == "over-4gib") { 240 } else { 25 };
+        unsafe {
+            libc::alarm(limit);
+        }
         let ev = oracle::evaluate(prop, &sc);
         unsafe {
             libc::alarm(0);
@@ -474,7 +477,15 @@ pub fn replay(path: &str) -> i32 {
     let prop = v["property"].as_str().unwrap_or("").to_string();
     let want = v["oracle"].as_str().unwrap_or("").to_string();
     let sc: Scenario = match serde_json::from_value(v["scenario"].clone()) {
-        Ok(s) => s,
+        Ok(s) => {
+            let s: Scenario = s;
+            if s.tags.iter().any(|t| t == "over-4gib") {
+                unsafe {
+                    libc::alarm(240);
+                }
+            }
+            s
+        }
         Err(e) => {
             eprintln!("HARNESS-ERROR: scenario does not parse: {}", e);
             return 2;
@@ -499,10 +510,10 @@ pub fn replay(path: &str) -> i32 {
 }
 
 pub fn one(prop: &str, seed: u64, idx: u64) -> i32 {
-    unsafe {
-        libc::alarm(25);
-    }
     let sc = profiles::generate(prop, seed, idx);
+    unsafe {
+        libc::alarm(if sc.tags.iter().any(|t| t == "over-4gib") { 240 } else { 25 });
+    }
     if std::env::var("VERIF_VERBOSE").is_ok() {
         // debugging aid: the base run's call trace and outcome
         let res = crate::run::run(&sc, &crate::run::RunOpts { trace: true, ..Default::default() });
